@@ -483,6 +483,13 @@ def run(ctx):
     # ================================================================== C03.d boolean selection
     for st in _stmts_in(opt.body):
         for n in au.walk_own(st):
+            if isinstance(n, ast.Call) and au.method_name(n) == "Variable" and au.kwarg(n, "boolean") is None and au.kwarg(n, "integer") is not None:
+                b_ = au.kwarg(n, "integer")
+                from_flags = any(isinstance(x, ast.Subscript) and au.const_str(x.slice) == "bool" for x in org.nodes(b_, st))
+                ctx.ob("C03.d", opt, "boolean= of the solver variable", False if from_flags else None,
+                       "the variables flagged in mapping['bool'] are declared `integer=` and no longer `boolean=`: an integer variable may take any whole "
+                       "number within its bounds - a flagged variable with bounds [0, 2.5] comes back as 2 (value 60.8 where the best boolean solution "
+                       "is 56.8), with bounds [2, 3] a 'solution' is reported although no boolean point exists", node=n)
             if isinstance(n, ast.Call) and au.method_name(n) == "Variable" and au.kwarg(n, "boolean") is not None:
                 b = au.kwarg(n, "boolean")
                 nodes = org.nodes(b, st)
